@@ -101,6 +101,9 @@ def _seeded(seed):
         'sample': lambda s: teneva.sample(_Ypos(), 5, seed=s),
         'sample_square': lambda s: teneva.sample_square(_Y(2), 4, unique=False, seed=s),
         'sample_square_unique': lambda s: teneva.sample_square(_Y(2), 3, unique=True, seed=s),
+        # most of the cells requested: the first batch of draws cannot contain enough distinct rows, the sampler restarts
+        'sample_square_unique.restart': lambda s: teneva.sample_square(_Y(2), 15, unique=True, seed=s, m_fact=1),
+        'sample_square.float_cf': lambda s: teneva.sample_square(_Y(2), 3, unique=False, seed=s, float_cf=2),
         'sample_lhs': lambda s: teneva.sample_lhs(n, 7, seed=s),
         'sample_rand': lambda s: teneva.sample_rand(n, 6, seed=s),
         'sample_rand_poi': lambda s: teneva.sample_rand_poi([-1., 0., 2.], [1., 3., 5.], 4, seed=s),
@@ -141,10 +144,19 @@ def _deterministic():
     }
 
 
+def _quiet(fn):
+    import contextlib
+    import io
+    with contextlib.redirect_stdout(io.StringIO()):
+        return fn()
+
+
 def _defaults():
     """Functions with mutable default dictionaries, called WITH the defaults, two parameterisations each."""
     grid = _grid()
     X = teneva.ind_to_poi(grid, -1., 1., 3, 'cheb')
+    g3 = space.grid_array([3, 3, 3])
+    y3 = np.cos(g3 @ np.array([1., 2., 3.])) * (1 + g3[:, 0] * g3[:, 2])
     return {
         'cross.default.m': lambda: teneva.cross(_f, _Y(9, r=1), m=40),
         'cross.default.nswp': lambda: teneva.cross(_f, _Y(9, r=1), nswp=2, dr_min=0, dr_max=0),
@@ -157,6 +169,11 @@ def _defaults():
         'cross.default.tiny_e': lambda: teneva.cross(lambda I: 1.0 / (1.0 + np.asarray(I) @ np.array([1.0, 1.0, 1.0])), space.tt([3, 3, 3], [1, 1, 1, 1], 'gen', 0, tag=66),
                                                      e=1e-14, nswp=4, dr_min=1, dr_max=1),
         'als.default.long': lambda: teneva.als(grid, _f(grid), _Y(9, r=2), nswp=6, I_vld=grid[::2], y_vld=_f(grid[::2]), e_vld=1e-30),
+        # the experimental allow_swap run really swaps modes here (rearrange = [1, 2, 0]) and leaves that in the default info
+        'als.default.swap': lambda: _quiet(lambda: teneva.als(g3, y3, space.tt([3, 3, 3], [1, 1, 1, 1], 'gen', 0, tag=3), nswp=3, r=3,
+                                                               allow_swap=True, swap_tol=3, e_adap=0.01, I_vld=g3[::2], y_vld=y3[::2])),
+        'als.default.vld333': lambda: teneva.als(g3, y3, space.tt([3, 3, 3], [1, 2, 2, 1], 'gen', 0, tag=5), nswp=5, I_vld=g3[1::2], y_vld=y3[1::2],
+                                                 e_vld=0.05),
         'als.default.tiny': lambda: teneva.als(space.grid_array([2, 2]), np.array([1., 2., 3., 5.]), space.tt([2, 2], [1, 1, 1], 'gen', 0, tag=67), nswp=2),
         'als.default': lambda: teneva.als(grid, _f(grid), _Y(9, r=2), nswp=2),
         'als.default.vld': lambda: teneva.als(grid, _f(grid), _Y(9, r=1), nswp=3, I_vld=grid[::2], y_vld=_f(grid[::2]), e_vld=1e-2),
